@@ -278,6 +278,13 @@ def seeds_for(bufs, mode, rng, limit=24):
 
     def S(b, a, w2):
         seeds.append({"bytes": list(b), "a": list(a), "b": list(w2)})
+    if mode == "trunc":
+        # every truncation of a few Ok buffers (both windows = the whole, truncated, memory): the checked write API on views
+        # whose destination bytes are partly or wholly absent
+        for b in ok[:2] + rng.sample(ok, min(len(ok), 2)):
+            for n in range(len(b) + 1):
+                S(b[:n], [0, n], [0, n])
+        return seeds[:max(limit, 96)]
     if mode == "single":
         pick = ok[:3] + rng.sample(ok, min(len(ok), 8)) + other[-3:] + rng.sample(other, min(len(other), 4))
         for b in pick:
